@@ -23,39 +23,39 @@ def parse_family(focus, quick_n, thorough_n, maxlen=7, inputs_per=3):
 
 PROPS = {
     'C01': dict(level='proof', theorem_modules=['C01', 'C09Lookahead', 'Accepted', 'BuildSet'], min_theorems=22, tags=['C01'], crash_counts=True,
-                gen=parse_family('C01', 1500, 40000), flavours=['c'],
+                gen=parse_family('C01', 3000, 40000), flavours=['c'],
                 rule='random grammars (1-5 nonterminals, nullable/recursive/ambiguous/error shapes) x sampled sentences, prefixes, mutations, random strings; every input parsed at lookahead 0,1,2 with random one_parse/cost and recovery on/off; non-trivial = distinct case text with at least one judged parse',
                 assumptions=COMMON_ASSUME + ['accepts_iff_sentence is proved for the level-0/1 model and accepts2_iff_sentence for the level-2 model, for every grammar readGrammar accepts (Props/Accepted.lean); recovery-on runs of non-sentences are judged by the recovery model; the set construction of build_new_set / expand_new_start_set / set_insert (start, derived and initial situations, cores shared by start situations) is modelled step for step at levels 0/1 (Model/BuildSet.lean) and proved to compute the abstract sets (buildPLC_eq_buildPL, acceptsC_iff_sentence); the tie compares the situations of every set with multiplicity, their order is only counted']),
     'C02': dict(level='proof', theorem_modules=['C02', 'Accepted', 'MakeParse'], min_theorems=8, tags=['C02'], crash_counts=True,
-                gen=parse_family('C02', 1500, 40000), flavours=['c'],
+                gen=parse_family('C02', 3000, 40000), flavours=['c'],
                 rule='random grammars with random translations (permuted, partial, nil-padded, pass-through, empty); sentences <= 7 tokens; one_parse=1 cost=0; tree compared with the enumerated translations of all derivations',
                 assumptions=COMMON_ASSUME + ['enumeration capped at 3000 derivations per input and 9 tokens (depth_bound: the enumerator is complete for every accepted grammar)']),
     'C03': dict(level='proof', theorem_modules=['C03', 'C02', 'MakeParse'], min_theorems=8, tags=['C03'], crash_counts=True,
-                gen=parse_family('C03', 1500, 40000), flavours=['c'],
+                gen=parse_family('C03', 3000, 40000), flavours=['c'],
                 rule='as C02 with one_parse=0: set of trees denoted by the DAG vs set of translations of all derivations',
                 assumptions=COMMON_ASSUME),
     'C04': dict(level='proof', theorem_modules=['C04'], min_theorems=6, tags=['C04'], crash_counts=True,
-                gen=parse_family('C04', 1500, 40000), flavours=['c'],
+                gen=parse_family('C04', 3000, 40000), flavours=['c'],
                 rule='random grammars with costs 0-5 (ties included); sentences <= 7 tokens; cost flag on, one_parse in {0,1}, parse_free given or NULL; denoted set vs argmin of total cost over all translations, every cost field vs the additive law',
                 assumptions=COMMON_ASSUME + ['prune theorems are about the Lean pruning model of a forest (Spec/Forest.lean); its tie to find_minimal_translation is the sampled comparison of results']),
     'C06': dict(level='proof', theorem_modules=['C06', 'C01'], min_theorems=12, tags=['C06'], crash_counts=True,
-                gen=parse_family('C06', 1500, 40000, maxlen=9), flavours=['c'],
+                gen=parse_family('C06', 3000, 40000, maxlen=9), flavours=['c'],
                 rule='grammars with and without error rules; non-sentences (mutated sentences, prefixes, random strings); recovery off (exact argument tuple) and on (well-formedness of every callback, strictly increasing error tokens, first error token = model)',
                 assumptions=COMMON_ASSUME + ['firstError_iff_viable / firstError2_iff_viable need every nonterminal productive (strict grammars); callback theorems (calls_wf, calls_increasing) hold under r.ok (search finished within fuel)']),
     'C07': dict(level='proof', theorem_modules=['C07', 'C06', 'C02'], min_theorems=12, tags=['C07'], crash_counts=True,
-                gen=parse_family('C07', 1500, 40000, maxlen=9), flavours=['c'],
+                gen=parse_family('C07', 3000, 40000, maxlen=9), flavours=['c'],
                 rule='grammars with 0..3 error rules, non-sentences <= 9 tokens, recovery_match 1..5, one/all parses, lookahead 0-2: return code, non-NULL tree, tree vs translations of the repaired input (read off the model parse list), ignored-token accounting, callbacks and final parse list vs the step-for-step recovery model',
                 assumptions=COMMON_ASSUME + ['theorems about the recovery model hold under r.ok (the search finished within its fuel and found a best state); termination and minimality of the search are not proved']),
     'C08': dict(level='proof', theorem_modules=['C08', 'C06'], min_theorems=4, tags=['C08'], crash_counts=True,
-                gen=parse_family('C08', 1500, 40000, maxlen=9), flavours=['c'],
+                gen=parse_family('C08', 3000, 40000, maxlen=9), flavours=['c'],
                 rule='grammars with error rules, non-sentences <= 9 tokens, recovery_match 1..5, lookahead 0-2: the number of tokens the first callback reports ignored vs the minimum over all simple recoveries (back position with `. error` x forward skip) computed by brute force from the statement over the model sets',
                 assumptions=COMMON_ASSUME + ['recover_minimal is proved for the recovery model under r.ok (search finished within fuel); the oracle simpleRecoveryCosts is the property statement itself']),
     'C09': dict(level='proof', theorem_modules=['C09', 'C09Lookahead', 'C01'], min_theorems=12, tags=['C09'], crash_counts=True,
-                gen=lambda seed, tier: parse_family('C09', 1200, 30000)(seed, tier) + long_c09_cases(seed, tier), flavours=['c'],
+                gen=lambda seed, tier: parse_family('C09', 2400, 30000)(seed, tier) + long_c09_cases(seed, tier), flavours=['c'],
                 rule='each input parsed at lookahead -3,0,1,2,7 and at several debug levels with otherwise identical flags: all observables (rc, callbacks, ambiguity flag, denoted tree set with costs) must be identical; goto-cache self-check hook on every parse',
                 assumptions=COMMON_ASSUME + ['verdict_indep_of_la01 / firstError_indep_of_la01 proved for levels 0/1; level 2 only through cross-level comparison']),
     'C05': dict(level='proof', theorem_modules=['C05'], min_theorems=4, tags=['C05'], crash_counts=True,
-                gen=parse_family('C05', 1500, 40000), flavours=['c'],
+                gen=parse_family('C05', 3000, 40000), flavours=['c'],
                 rule='ambiguity flag vs number of derivations / distinct translations, one_parse in {0,1}',
                 assumptions=COMMON_ASSUME),
     'C10': dict(level='proof', theorem_modules=['C10', 'Generated'], min_theorems=8, tags=['C10'], crash_counts=True,
@@ -88,16 +88,16 @@ PROPS = {
                              'Lean carries only the decision logic behind bounds (recovery index arithmetic is validated by the C06/C07 checks, containers by C19)'],
                 technique='sanitizer-instrumented exploration driven by the same generators; Lean theorems only for the modelled index/bounds logic (partial)'),
     'C13': dict(level='proof', theorem_modules=['C13'], min_theorems=6, tags=['C13'], crash_counts=True,
-                gen=lambda seed, tier: gen.gen_history_cases(seed, 4000 if tier == 'thorough' else 500) +
-                                       gen.gen_parse_cases(seed + 7, 6000 if tier == 'thorough' else 500, 'C13'), flavours=['c'],
+                gen=lambda seed, tier: gen.gen_history_cases(seed, 4000 if tier == 'thorough' else 1000) +
+                                       gen.gen_parse_cases(seed + 7, 6000 if tier == 'thorough' else 1500, 'C13'), flavours=['c'],
                 rule='every caller-side parse_alloc / parse_free / termcb event of every parse is logged with block ids: frees must hit live blocks of the same parse exactly once, everything reachable from the root must lie in live blocks (walk before and after yaep_free_grammar under ASan with real frees), yaep_free_tree must release all blocks of the parse and call termcb once per TERM node; definitions are handed over as heap copies that are scribbled and freed right after the defining call',
                 assumptions=COMMON_ASSUME + ['that the C pointer graph is the exported node table is observed, not proved; partial: memory effects are runtime truth (ASan)']),
     'C14': dict(level='proof', theorem_modules=['C14'], min_theorems=8, tags=['C14', 'C15', 'C01', 'C02', 'C05', 'C06', 'C07', 'C10', 'C13', 'C09'], crash_counts=True,
-                gen=lambda seed, tier: gen.gen_history_cases(seed, 12000 if tier == 'thorough' else 1200), flavours=['c'],
+                gen=lambda seed, tier: gen.gen_history_cases(seed, 12000 if tier == 'thorough' else 2400), flavours=['c'],
                 rule='random histories of <= 40 API calls over up to 3 live grammar objects (create, set, define good/defective, redefine, parse with sentences / non-sentences / invalid codes / NULL allocators, error queries, free_tree, free in any order); every return value, callback and tree is compared with the history-free model (a function of the object definition and settings only); library allocator accounting must be zero after all objects are freed',
                 assumptions=COMMON_ASSUME + ['the model is history-free by construction (Model/Api.lean); any deviation of any call is therefore a history dependence']),
     'C15': dict(level='proof', theorem_modules=['C15', 'Generated'], min_theorems=12, tags=['C15'], crash_counts=True,
-                gen=lambda seed, tier: gen.gen_history_cases(seed + 3, 12000 if tier == 'thorough' else 1200), flavours=['c'],
+                gen=lambda seed, tier: gen.gen_history_cases(seed + 3, 12000 if tier == 'thorough' else 2400), flavours=['c'],
                 rule='the same histories: yaep_error_code / message after every call, return codes of yaep_parse for invalid token codes (below, between and above the declared codes), undefined grammars, NULL allocator with non-NULL free; previous values returned by all setters incl. out-of-range lookahead levels',
                 assumptions=COMMON_ASSUME),
     'C17': dict(level='fault_enumeration', theorem_modules=['C14'], min_theorems=4, tags=['C17', 'C12', 'C15', 'C14'], crash_counts=True, runner=None,
